@@ -10,15 +10,23 @@ fuzz_target!(|data: &[u8]| {
             let h = &r.headers;
             let cl = h.get_content_length();
             feature(&[1, h.get_count().min(6) as u64, digits(cl), h.is_transfer_encoding_chunked() as u64, h.is_connection_close() as u64]);
-            feature(&[2, r.method.as_str().len().min(9) as u64, r.uri.path().len().min(20) as u64, r.uri.query().map(|q| q.len().min(9) + 1).unwrap_or(0) as u64,
-                      r.uri.scheme().is_some() as u64, r.uri.authority().map(|a| a.len().min(12) + 1).unwrap_or(0) as u64, r.http_version as u64]);
+            let pl = r.uri.path().len();
+            let pb = match pl { 0 => 0u64, 1 => 1, 2..=7 => 2, 8 => 3, 9..=15 => 4, 16 => 5, _ => 6 };
+            let qb = match r.uri.query().map(|q| q.len()) { None => 0u64, Some(0) => 1, Some(1..=7) => 2, Some(_) => 3 };
+            let ab = match r.uri.authority().map(|a| a.len()) { None => 0u64, Some(0..=7) => 1, Some(8) => 2, Some(_) => 3 };
+            feature(&[2, pb, qb]);
+            feature(&[5, ab, r.uri.scheme().is_some() as u64, r.method.as_str().len().min(9) as u64]);
+            // method x target form (origin / absolute / authority / asterisk): every combination is a shape of its own
+            let form = if r.uri.as_str() == "*" { 3u64 } else if r.uri.scheme().is_some() { 1 } else if r.uri.as_str().starts_with('/') { 0 } else { 2 };
+            let mi = ["GET", "POST", "HEAD", "PUT", "PATCH", "DELETE", "OPTIONS", "TRACE", "CONNECT"].iter().position(|m| *m == r.method.as_str()).unwrap_or(9) as u64;
+            feature(&[4, mi, form, r.http_version as u64, (h.get_count() > 0) as u64]);
             // the longest run of digits in the head (a Content-Length numeral of unusual width) against what was decoded
             let mut run = 0u64;
             let mut best = 0u64;
             for b in &data[..r.buf_offset.min(data.len())] {
                 if b.is_ascii_digit() { run += 1; best = best.max(run) } else { run = 0 }
             }
-            feature(&[3, best.min(50), digits(cl)]);
+            feature(&[3, best.min(50), cl.is_some() as u64]);
             let _ = r.uri.path_and_query();
             let _ = format!("{}", r.uri);
         }
